@@ -90,6 +90,7 @@ type vcase struct {
 	Decl    string   `json:"declared_with"`
 	Default []string `json:"default"`
 	EnvVars []string `json:"env_vars"` // name=value | name (unset)
+	Hide    bool     `json:"hide_value,omitempty"` // HideValue: only the help may differ
 	Cli     []string `json:"command_line_values"`
 	Argv    []string `json:"argv"`
 
@@ -270,15 +271,15 @@ func (v *vcase) run() (o vobs) {
 		*p = true // what the variable held before the declaration must not matter
 		switch {
 		case v.asArg && v.declIdx == 0:
-			p = app.Bool(cli.BoolArg{Name: name, Value: d, EnvVar: env, SetByUser: sbu})
+			p = app.Bool(cli.BoolArg{Name: name, Value: d, EnvVar: env, SetByUser: sbu, HideValue: v.Hide})
 		case v.asArg && v.declIdx == 1:
-			app.BoolPtr(p, cli.BoolArg{Name: name, Value: d, EnvVar: env, SetByUser: sbu})
+			app.BoolPtr(p, cli.BoolArg{Name: name, Value: d, EnvVar: env, SetByUser: sbu, HideValue: v.Hide})
 		case v.asArg:
 			p = app.BoolArg(name, d, "")
 		case v.declIdx == 0:
-			p = app.Bool(cli.BoolOpt{Name: name, Value: d, EnvVar: env, SetByUser: sbu})
+			p = app.Bool(cli.BoolOpt{Name: name, Value: d, EnvVar: env, SetByUser: sbu, HideValue: v.Hide})
 		case v.declIdx == 1:
-			app.BoolPtr(p, cli.BoolOpt{Name: name, Value: d, EnvVar: env, SetByUser: sbu})
+			app.BoolPtr(p, cli.BoolOpt{Name: name, Value: d, EnvVar: env, SetByUser: sbu, HideValue: v.Hide})
 		default:
 			p = app.BoolOpt(name, d, "")
 		}
@@ -289,15 +290,15 @@ func (v *vcase) run() (o vobs) {
 		*p = "stale" // what the variable held before the declaration must not matter
 		switch {
 		case v.asArg && v.declIdx == 0:
-			p = app.String(cli.StringArg{Name: name, Value: d, EnvVar: env, SetByUser: sbu})
+			p = app.String(cli.StringArg{Name: name, Value: d, EnvVar: env, SetByUser: sbu, HideValue: v.Hide})
 		case v.asArg && v.declIdx == 1:
-			app.StringPtr(p, cli.StringArg{Name: name, Value: d, EnvVar: env, SetByUser: sbu})
+			app.StringPtr(p, cli.StringArg{Name: name, Value: d, EnvVar: env, SetByUser: sbu, HideValue: v.Hide})
 		case v.asArg:
 			p = app.StringArg(name, d, "")
 		case v.declIdx == 0:
-			p = app.String(cli.StringOpt{Name: name, Value: d, EnvVar: env, SetByUser: sbu})
+			p = app.String(cli.StringOpt{Name: name, Value: d, EnvVar: env, SetByUser: sbu, HideValue: v.Hide})
 		case v.declIdx == 1:
-			app.StringPtr(p, cli.StringOpt{Name: name, Value: d, EnvVar: env, SetByUser: sbu})
+			app.StringPtr(p, cli.StringOpt{Name: name, Value: d, EnvVar: env, SetByUser: sbu, HideValue: v.Hide})
 		default:
 			p = app.StringOpt(name, d, "")
 		}
@@ -308,15 +309,15 @@ func (v *vcase) run() (o vobs) {
 		*p = -77 // what the variable held before the declaration must not matter
 		switch {
 		case v.asArg && v.declIdx == 0:
-			p = app.Int(cli.IntArg{Name: name, Value: d, EnvVar: env, SetByUser: sbu})
+			p = app.Int(cli.IntArg{Name: name, Value: d, EnvVar: env, SetByUser: sbu, HideValue: v.Hide})
 		case v.asArg && v.declIdx == 1:
-			app.IntPtr(p, cli.IntArg{Name: name, Value: d, EnvVar: env, SetByUser: sbu})
+			app.IntPtr(p, cli.IntArg{Name: name, Value: d, EnvVar: env, SetByUser: sbu, HideValue: v.Hide})
 		case v.asArg:
 			p = app.IntArg(name, d, "")
 		case v.declIdx == 0:
-			p = app.Int(cli.IntOpt{Name: name, Value: d, EnvVar: env, SetByUser: sbu})
+			p = app.Int(cli.IntOpt{Name: name, Value: d, EnvVar: env, SetByUser: sbu, HideValue: v.Hide})
 		case v.declIdx == 1:
-			app.IntPtr(p, cli.IntOpt{Name: name, Value: d, EnvVar: env, SetByUser: sbu})
+			app.IntPtr(p, cli.IntOpt{Name: name, Value: d, EnvVar: env, SetByUser: sbu, HideValue: v.Hide})
 		default:
 			p = app.IntOpt(name, d, "")
 		}
@@ -327,15 +328,15 @@ func (v *vcase) run() (o vobs) {
 		*p = -7.5 // what the variable held before the declaration must not matter
 		switch {
 		case v.asArg && v.declIdx == 0:
-			p = app.Float64(cli.Float64Arg{Name: name, Value: d, EnvVar: env, SetByUser: sbu})
+			p = app.Float64(cli.Float64Arg{Name: name, Value: d, EnvVar: env, SetByUser: sbu, HideValue: v.Hide})
 		case v.asArg && v.declIdx == 1:
-			app.Float64Ptr(p, cli.Float64Arg{Name: name, Value: d, EnvVar: env, SetByUser: sbu})
+			app.Float64Ptr(p, cli.Float64Arg{Name: name, Value: d, EnvVar: env, SetByUser: sbu, HideValue: v.Hide})
 		case v.asArg:
 			p = app.Float64Arg(name, d, "")
 		case v.declIdx == 0:
-			p = app.Float64(cli.Float64Opt{Name: name, Value: d, EnvVar: env, SetByUser: sbu})
+			p = app.Float64(cli.Float64Opt{Name: name, Value: d, EnvVar: env, SetByUser: sbu, HideValue: v.Hide})
 		case v.declIdx == 1:
-			app.Float64Ptr(p, cli.Float64Opt{Name: name, Value: d, EnvVar: env, SetByUser: sbu})
+			app.Float64Ptr(p, cli.Float64Opt{Name: name, Value: d, EnvVar: env, SetByUser: sbu, HideValue: v.Hide})
 		default:
 			p = app.Float64Opt(name, d, "")
 		}
@@ -351,15 +352,15 @@ func (v *vcase) run() (o vobs) {
 		*p = []string{"stale", "values"} // what the variable held before the declaration must not matter
 		switch {
 		case v.asArg && v.declIdx == 0:
-			p = app.Strings(cli.StringsArg{Name: name, Value: d, EnvVar: env, SetByUser: sbu})
+			p = app.Strings(cli.StringsArg{Name: name, Value: d, EnvVar: env, SetByUser: sbu, HideValue: v.Hide})
 		case v.asArg && v.declIdx == 1:
-			app.StringsPtr(p, cli.StringsArg{Name: name, Value: d, EnvVar: env, SetByUser: sbu})
+			app.StringsPtr(p, cli.StringsArg{Name: name, Value: d, EnvVar: env, SetByUser: sbu, HideValue: v.Hide})
 		case v.asArg:
 			p = app.StringsArg(name, d, "")
 		case v.declIdx == 0:
-			p = app.Strings(cli.StringsOpt{Name: name, Value: d, EnvVar: env, SetByUser: sbu})
+			p = app.Strings(cli.StringsOpt{Name: name, Value: d, EnvVar: env, SetByUser: sbu, HideValue: v.Hide})
 		case v.declIdx == 1:
-			app.StringsPtr(p, cli.StringsOpt{Name: name, Value: d, EnvVar: env, SetByUser: sbu})
+			app.StringsPtr(p, cli.StringsOpt{Name: name, Value: d, EnvVar: env, SetByUser: sbu, HideValue: v.Hide})
 		default:
 			p = app.StringsOpt(name, d, "")
 		}
@@ -375,15 +376,15 @@ func (v *vcase) run() (o vobs) {
 		*p = []int{-77, -78} // what the variable held before the declaration must not matter
 		switch {
 		case v.asArg && v.declIdx == 0:
-			p = app.Ints(cli.IntsArg{Name: name, Value: d, EnvVar: env, SetByUser: sbu})
+			p = app.Ints(cli.IntsArg{Name: name, Value: d, EnvVar: env, SetByUser: sbu, HideValue: v.Hide})
 		case v.asArg && v.declIdx == 1:
-			app.IntsPtr(p, cli.IntsArg{Name: name, Value: d, EnvVar: env, SetByUser: sbu})
+			app.IntsPtr(p, cli.IntsArg{Name: name, Value: d, EnvVar: env, SetByUser: sbu, HideValue: v.Hide})
 		case v.asArg:
 			p = app.IntsArg(name, d, "")
 		case v.declIdx == 0:
-			p = app.Ints(cli.IntsOpt{Name: name, Value: d, EnvVar: env, SetByUser: sbu})
+			p = app.Ints(cli.IntsOpt{Name: name, Value: d, EnvVar: env, SetByUser: sbu, HideValue: v.Hide})
 		case v.declIdx == 1:
-			app.IntsPtr(p, cli.IntsOpt{Name: name, Value: d, EnvVar: env, SetByUser: sbu})
+			app.IntsPtr(p, cli.IntsOpt{Name: name, Value: d, EnvVar: env, SetByUser: sbu, HideValue: v.Hide})
 		default:
 			p = app.IntsOpt(name, d, "")
 		}
@@ -399,15 +400,15 @@ func (v *vcase) run() (o vobs) {
 		*p = []float64{-7.5} // what the variable held before the declaration must not matter
 		switch {
 		case v.asArg && v.declIdx == 0:
-			p = app.Floats64(cli.Floats64Arg{Name: name, Value: d, EnvVar: env, SetByUser: sbu})
+			p = app.Floats64(cli.Floats64Arg{Name: name, Value: d, EnvVar: env, SetByUser: sbu, HideValue: v.Hide})
 		case v.asArg && v.declIdx == 1:
-			app.Floats64Ptr(p, cli.Floats64Arg{Name: name, Value: d, EnvVar: env, SetByUser: sbu})
+			app.Floats64Ptr(p, cli.Floats64Arg{Name: name, Value: d, EnvVar: env, SetByUser: sbu, HideValue: v.Hide})
 		case v.asArg:
 			p = app.Floats64Arg(name, d, "")
 		case v.declIdx == 0:
-			p = app.Floats64(cli.Floats64Opt{Name: name, Value: d, EnvVar: env, SetByUser: sbu})
+			p = app.Floats64(cli.Floats64Opt{Name: name, Value: d, EnvVar: env, SetByUser: sbu, HideValue: v.Hide})
 		case v.declIdx == 1:
-			app.Floats64Ptr(p, cli.Floats64Opt{Name: name, Value: d, EnvVar: env, SetByUser: sbu})
+			app.Floats64Ptr(p, cli.Floats64Opt{Name: name, Value: d, EnvVar: env, SetByUser: sbu, HideValue: v.Hide})
 		default:
 			p = app.Floats64Opt(name, d, "")
 		}
@@ -446,9 +447,11 @@ func genValueCase(r *rand.Rand, wide bool) *vcase {
 		x, _ := v.kind.parse(pool[0])
 		v.def = append(v.def, x)
 	}
+	v.Hide = r.Intn(5) == 0
 	nenv := r.Intn(4)
+	envStyle := []string{"VPT_%d", "VPT_%d", "vpt_%d", "Vpt_miXed_%d"}[r.Intn(4)] // names are case-sensitive and used as written
 	for e := 0; e < nenv; e++ {
-		v.envName = append(v.envName, fmt.Sprintf("VPT_%d", e))
+		v.envName = append(v.envName, fmt.Sprintf(envStyle, e))
 		var val string
 		switch r.Intn(5) {
 		case 0:
